@@ -554,10 +554,73 @@ class C11(Check):
         out = []
         for argv, coq, py in self._py_coq_spec_mismatch:
             out.append(f"Spec/C11.v scan_S and the harness' Python scanner disagree on {argv}: {coq} vs {py}")
+        out += self._gcc_oracle()
         return out
 
+    def _gcc_oracle(self):
+        """S versus gcc: the scanner's reading of both spellings of the four options, their order, and the neutrality of
+        other options, against what `gcc -E -dM -v` defines / searches and what `gcc -E` force-includes."""
+        import re
+        import shutil
+        import subprocess
+        gcc = shutil.which("gcc")
+        self._oracle = {"cases": 0, "disagreements": 0, "available": bool(gcc)}
+        if not gcc:
+            return []
+        root = common.scratch() / "c11gcc"
+        root.mkdir(parents=True, exist_ok=True)
+        for k in range(6):
+            (root / f"d{k}").mkdir(exist_ok=True)
+        for k in range(4):
+            (root / f"h{k}.h").write_text(f"#define CBI_H{k} 1\n")
+        (root / "e.c").write_text("")
+        neutral = [["-O2"], ["-g3"], ["-ggdb"], ["-Wall"], ["-Wextra"], ["-std=gnu99"], ["-fPIC"], ["-ffast-math"], ["-pipe"], ["-w"],
+                   ["-pthread"], ["-m64"], ["-funroll-loops"], ["-O"], ["-g"], ["-UCBI_NONE"], ["-U", "CBI_NONE"], ["-fopenmp-simd"],
+                   ["-iquote", "d5"], ["-Wno-unused"], ["-fno-common"], ["-march=x86-64"]]
+        problems = []
+        rng = self.rng
+        for _ in range(12 if self.tier == "quick" else 200):
+            items = []
+            for i in rng.sample(range(8), rng.randint(0, 4)):
+                v = f"CBI_M{i}" + rng.choice(["", "=1", "=a b", "=x=y", "=\"q\"", "=-1", "="])
+                items.append(["-D" + v] if rng.random() < 0.5 else ["-D", v])
+            flag = rng.choice(["-I", "-isystem"])
+            for k in rng.sample(range(5), rng.randint(0, 4)):
+                items.append([flag + f"d{k}"] if rng.random() < 0.5 else [flag, f"d{k}"])
+            for k in rng.sample(range(4), rng.randint(0, 3)):
+                items.append([f"-includeh{k}.h"] if rng.random() < 0.5 else ["-include", f"h{k}.h"])
+            for _j in range(rng.randint(0, 5)):
+                items.append(list(rng.choice(neutral)))
+            rng.shuffle(items)
+            argv = flatten(items)
+            want = scan_py(argv)
+            self._oracle["cases"] += 1
+            p1 = subprocess.run([gcc, "-E", "-dM", "-v", "-x", "c", "e.c"] + argv, cwd=root, capture_output=True, text=True, timeout=60)
+            p2 = subprocess.run([gcc, "-E", "-x", "c", "e.c"] + argv, cwd=root, capture_output=True, text=True, timeout=60)
+            if p1.returncode != 0 or p2.returncode != 0:
+                problems.append(f"gcc rejected {argv}: {(p1.stderr + p2.stderr)[-200:]}")
+                continue
+            macros = {}
+            for m in re.finditer(r"^#define (CBI_M\d+) ?(.*)$", p1.stdout, flags=re.M):
+                macros[m.group(1)] = m.group(2)
+            exp = {}
+            for d in want[0]:
+                name, eq, val = d.partition("=")
+                exp[name] = val if eq else "1"
+            sect = p1.stderr.split("#include <...> search starts here:")[1].split("End of search list.")[0]
+            dirs = [l.strip() for l in sect.splitlines() if l.strip() and not l.strip().startswith("/")]
+            incs = []
+            for m in re.finditer(r'^# 1 "(?:\./)*(h\d\.h)"', p2.stdout, flags=re.M):
+                if m.group(1) not in incs:
+                    incs.append(m.group(1))
+            got = [macros, dirs, incs]
+            if got != [exp, want[1], want[2]]:
+                self._oracle["disagreements"] += 1
+                problems.append(f"S and gcc disagree on {argv}: S={[exp, want[1], want[2]]} gcc={got}")
+        return problems[:3]
+
     def extra_coverage(self):
-        return {"input_distribution": self._hist, "catalogue_entries": len(CATALOGUE),
+        return {"input_distribution": self._hist, "spec_oracle_gcc": getattr(self, "_oracle", None), "catalogue_entries": len(CATALOGUE),
                 "exhaustive": "all vectors of <= %d items over %d reduced items; shlex.split over all strings of length <= %d over 7 letters"
                               % (3 if self.tier == "quick" else 4, len(SMALL_ITEMS), 4 if self.tier == "quick" else 6)}
 
